@@ -234,7 +234,10 @@ def gen(ctx):
         Q = all_queries(n, guards=(n < 4))
         for g in acyclic_graphs(n, C.ADMG_STATES):
             i += 1
-            yield {"kind": "ipm", "g": g, "fam": fams[i % 5] if n < 4 else ("int", "bigint", "str", "tuple")[i % 4], "Q": Q, "src": "exh-ip%d" % n}
+            c = {"kind": "ipm", "g": g, "fam": fams[i % 5] if n < 4 else ("int", "bigint", "str", "tuple")[i % 4], "Q": Q, "src": "exh-ip%d" % n}
+            if n == 4 and i % 4:
+                c["nodec"] = True      # 4-node exhaustive part: cross-check with the brute-force decider on every 4th graph
+            yield c
     if tier == "quick":
         gs = list(acyclic_graphs(4, C.ADMG_STATES))
         Q4 = all_queries(4)
@@ -250,7 +253,7 @@ def gen(ctx):
     if tier == "quick":
         gs = list(acyclic_graphs(4, DAG_STATES))
         for g in gs:
-            for L, S in rng.sample(list(ls_assignments([0, 1, 2, 3])), 6):
+            for L, S in rng.sample(list(ls_assignments([0, 1, 2, 3])), 14):
                 i += 1
                 yield {"kind": "dm", "g": g, "L": L, "S": S, "fam": fams[i % 5], "src": "smp-dm4"}
     # structured random, n = 5..7 (the order-dependent incompleteness of the unfixed DFS starts at 5)
@@ -274,7 +277,7 @@ def gen(ctx):
         g = rand_admg(rng, n, dag_only=True)
         if j % 3 == 0:
             g = C.shuffled_graph(rng, g)
-        L, S = rand_ls(rng, list(range(n)), pl=rng.choice((0.2, 0.4, 0.6)), ps=rng.choice((0.0, 0.15, 0.3)))
+        L, S = rand_ls(rng, list(range(n)), pl=rng.choice((0.0, 0.2, 0.4, 0.6)), ps=rng.choice((0.0, 0.2, 0.4)))
         i += 1
         yield {"kind": "dm", "g": g, "L": L, "S": S, "fam": fams[i % 5], "src": "rnd-dm%d" % n}
 
@@ -325,7 +328,8 @@ def eval_sub(args):
             for qi, (x, y, L, S) in enumerate(c["Q"]):
                 idx.append((ci, qi, len(lines)))
                 lines.append(q_line("indpath", c["g"], x, y, L, S))
-                lines.append(q_line("inddec", c["g"], x, y, L, S))
+                # `nodec`: the (proved equal) brute-force decider is skipped, the proved model decides alone
+                lines.append(q_line("inddec", c["g"], x, y, L, S) if not c.get("nodec") else "noop")
                 r = got[qi] if isinstance(got, list) else got
                 lines.append(q_line("indvalid", c["g"], x, y, L, S, " P=" + ",".join(map(str, r.get("path", []))))
                              if r.get("ans") == "T" else "noop")
@@ -353,6 +357,8 @@ def eval_sub(args):
                 x, y, L, S, r = c["x"], c["y"], c["L"], c["S"], got
             single = {"kind": "ip", "g": c["g"], "x": x, "y": y, "L": L, "S": S, "fam": c.get("fam", "int"), "src": c.get("src", "")}
             model, dec, valid = ans[li], ans[li + 1], ans[li + 2]
+            if dec == "bad-op":
+                dec = model.split(":")[0]
             dom = ip_in_domain(c["g"], x, y, L, S)
             nt = dom and not adjacent(c["g"], x, y) and (dec == "T" or bool(L or S))
             ev.case(single, nontrivial=nt)
